@@ -41,6 +41,21 @@ API
   reset_rexpy_state()          clears tdda.rexpy.rexpy.memo and nCalls (the
                                only module-level state a later call can see)
   make_size(setting)           tdda Size(**setting) (None -> None)
+  ModuleState(module)          state found BY INTROSPECTION: every
+                               module-level value, every class attribute of a
+                               class defined in the module, and every mutable
+                               default argument (func.__defaults__ /
+                               __kwdefaults__) of every function and method
+                               defined in the module.  Taken once (pristine
+                               state, after import).
+      .restore()               put all of it back (rebinding names, restoring
+                               container contents in place, deleting names
+                               that appeared since): a fresh module state
+                               without re-importing
+      .fingerprint()           short hash of the current contents (dict keys
+                               sorted; integer counters such as nCalls are
+                               left out: write-only, never read by rexpy)
+      .slots()                 labels of the state-carrying slots found
 """
 import contextlib
 import itertools
@@ -162,3 +177,153 @@ def make_size(setting):
         return None
     import tdda.rexpy.rexpy as rx
     return rx.Size(**setting)
+
+
+# ------------------------------------------------------------------ state
+
+_CONTAINERS = (dict, list, set, bytearray)
+
+
+def _is_container(v):
+    import array
+    import collections
+    return isinstance(v, _CONTAINERS + (array.array, collections.deque))
+
+
+def _copy_container(v):
+    import copy
+    try:
+        return copy.deepcopy(v)
+    except Exception:               # noqa - uncopyable element: shallow
+        return copy.copy(v)
+
+
+def _restore_container(live, saved):
+    import copy
+    fresh = _copy_container(saved)
+    if isinstance(live, dict):
+        live.clear()
+        live.update(fresh)
+    elif isinstance(live, set):
+        live.clear()
+        live.update(fresh)
+    else:
+        del live[:]
+        live.extend(fresh)
+
+
+def _canon(v, depth=0):
+    if depth > 4:
+        return '...'
+    if isinstance(v, dict):
+        return '{%s}' % ','.join(sorted('%s:%s' % (_canon(k, depth + 1),
+                                                   _canon(x, depth + 1))
+                                        for (k, x) in v.items()))
+    if isinstance(v, (set, frozenset)):
+        return 'set(%s)' % ','.join(sorted(_canon(x, depth + 1) for x in v))
+    if isinstance(v, (list, tuple)):
+        return '[%s]' % ','.join(_canon(x, depth + 1) for x in v)
+    r = repr(v)
+    if ' at 0x' in r:               # object identity is not state
+        r = type(v).__name__
+    return r
+
+
+class ModuleState(object):
+    def __init__(self, module):
+        import inspect
+        self.module = module
+        self.names = {}         # module-level name -> object bound at start
+        self.containers = []    # (label, live object, saved copy)
+        name = module.__name__
+        for (k, v) in list(vars(module).items()):
+            if k.startswith('__') or inspect.ismodule(v):
+                continue
+            self.names[k] = v
+            if _is_container(v):
+                self._add('global %s' % k, v)
+            elif inspect.isclass(v) and v.__module__ == name:
+                for (a, x) in list(vars(v).items()):
+                    if _is_container(x):
+                        self._add('class %s.%s' % (k, a), x)
+                    f = getattr(x, '__func__', x)
+                    if inspect.isfunction(f):
+                        self._defaults('%s.%s' % (k, a), f)
+            elif inspect.isfunction(v) and v.__module__ == name:
+                self._defaults(k, v)
+        self.class_attrs = {}
+        for (k, v) in self.names.items():
+            if inspect.isclass(v) and v.__module__ == name:
+                self.class_attrs[k] = dict(
+                    (a, x) for (a, x) in vars(v).items()
+                    if not a.startswith('__') and not callable(x)
+                    and not isinstance(x, (staticmethod, classmethod,
+                                           property)))
+
+    def _add(self, label, obj):
+        if any(o is obj for (_, o, _) in self.containers):
+            return
+        self.containers.append((label, obj, _copy_container(obj)))
+
+    def _defaults(self, label, f):
+        for (i, d) in enumerate(f.__defaults__ or ()):
+            if _is_container(d):
+                self._add('default %s[%d]' % (label, i), d)
+        for (k, d) in (f.__kwdefaults__ or {}).items():
+            if _is_container(d):
+                self._add('kwdefault %s.%s' % (label, k), d)
+
+    def slots(self):
+        return [label for (label, _, _) in self.containers]
+
+    def restore(self):
+        import inspect
+        m = self.module
+        for k in list(vars(m)):
+            if k.startswith('__') or inspect.ismodule(vars(m)[k]):
+                continue
+            if k not in self.names:
+                delattr(m, k)
+        for (k, v) in self.names.items():
+            if vars(m).get(k, None) is not v:
+                setattr(m, k, v)
+        for (k, attrs) in self.class_attrs.items():
+            cls = self.names[k]
+            for a in list(vars(cls)):
+                if a.startswith('__') or callable(vars(cls)[a]) or \
+                        isinstance(vars(cls)[a], (staticmethod, classmethod,
+                                                  property)):
+                    continue
+                if a not in attrs:
+                    delattr(cls, a)
+            for (a, x) in attrs.items():
+                if vars(cls).get(a, None) is not x:
+                    setattr(cls, a, x)
+        for (label, live, saved) in self.containers:
+            _restore_container(live, saved)
+
+    def fingerprint(self):
+        import hashlib
+        import inspect
+        parts = []
+        m = self.module
+        for (k, v) in sorted(vars(m).items()):
+            if k.startswith('__') or inspect.ismodule(v) or callable(v):
+                continue
+            if isinstance(v, int) and not isinstance(v, bool):
+                continue
+            if _is_container(v) and any(o is v for (_, o, _)
+                                        in self.containers):
+                continue
+            parts.append('%s=%s' % (k, _canon(v)))
+        for (label, live, _) in self.containers:
+            parts.append('%s=%s' % (label, _canon(live)))
+        for (k, attrs) in sorted(self.class_attrs.items()):
+            cls = self.names[k]
+            for (a, x) in sorted(vars(cls).items()):
+                if a.startswith('__') or callable(x) or _is_container(x) or \
+                        isinstance(x, (staticmethod, classmethod, property)):
+                    continue
+                parts.append('%s.%s=%s' % (k, a, _canon(x)))
+        return hashlib.sha1('\n'.join(parts).encode('utf-8', 'replace')
+                            ).hexdigest()[:12]
